@@ -77,7 +77,7 @@ def param2ast(param):
     :returns: AST node for assignment
     :rtype: ```Union[AnnAssign, Assign]```
     """
-    name, _param = param
+    name, _param = param[0], dict(param[1])  # a copy: the caller's IR is left as it was given
     del param
     if _param.get("typ") is None and "default" in _param and "[" not in _param:
         _param["typ"] = type(_param["default"]).__name__
@@ -272,7 +272,7 @@ def param2argparse_param(param, word_wrap=True, emit_default_doc=True):
     :returns: `argparse.add_argument` call—with arguments—as an AST node
     :rtype: ```Expr```
     """
-    name, _param = param
+    name, _param = param[0], dict(param[1])  # a copy: the caller's IR is left as it was given
     del param
     typ, choices, required, action = (
         "str",
